@@ -155,6 +155,20 @@ func buildDriver(e *Env, specs []PkgSpec, race bool) (string, string, []PkgSpec,
 	if bs, err := json.Marshal(dropped); err == nil {
 		os.WriteFile(filepath.Join(root, "specs", "dropped.json"), bs, 0o644)
 	}
+	// triage aid: VERIF_KEEP_DROPPED=<dir> keeps the documents of dropped programs
+	if keep := os.Getenv("VERIF_KEEP_DROPPED"); keep != "" {
+		os.MkdirAll(keep, 0o755)
+		for i, r := range results {
+			if !r.ok {
+				raw := specs[i].Raw
+				if raw == nil && specs[i].Doc != nil {
+					raw = specs[i].Doc.JSON()
+				}
+				os.WriteFile(filepath.Join(keep, specs[i].Name+".json"), raw, 0o644)
+				os.WriteFile(filepath.Join(keep, specs[i].Name+".why.txt"), []byte(r.why), 0o644)
+			}
+		}
+	}
 	if len(kept) == 0 {
 		return "", root, nil, st, fmt.Errorf("no generated package survived (drawn %d, rejected %d, dropped %d: %v)", st.Drawn, st.Rejected, st.Dropped, st.DroppedWhy)
 	}
